@@ -183,6 +183,28 @@ def check_message(spec):
         _pair(spec, p, label)
         labels.add(label.split("-last")[0].split("-notlast")[0])
         n += 1
+    # attributes given as Python floats (what the driver framework passes for timeout / min / max / step) that differ far
+    # behind the decimal point
+    req_, opt_, _t, _c = gen.MESSAGES[spec["kind"]]
+    float_pairs = [(2.5, 2.5000004), (4e-7, 4.4e-7), (1e-9, 1.1e-9), (60.0, 60.00000000001)]
+    if "timeout" in opt_ or "timeout" in req_:
+        for x, y in float_pairs:
+            a_, b_ = gen.build(spec), gen.build(spec)
+            a_.timeout, b_.timeout = x, y
+            got_ = [(a_ == b_), (b_ == a_), not (a_ != b_), not (b_ != a_)]
+            if any(got_):
+                raise Failure("eq-mismatch:float-attribute-differs", f"timeout={x!r} vs timeout={y!r} (Python floats) compare {got_} for {spec}")
+            n += 1
+        labels.add("float-attribute-differs")
+    for i, c in enumerate(spec.get("children", [])):
+        if c["kind"] == "defNumber":
+            for x, y in float_pairs[1:3]:
+                a_, b_ = gen.build(spec), gen.build(spec)
+                a_.children[i].step, b_.children[i].step = x, y
+                if (a_ == b_) or not (a_ != b_):
+                    raise Failure("eq-mismatch:float-attribute-differs:child", f"child {i} step={x!r} vs {y!r} compare equal for {spec}")
+                n += 1
+            break
     # long values (a BLOB payload, a long text) that differ in ONE character somewhere in the middle
     for i, c in enumerate(spec.get("children", [])):
         prule = gen.PARTS[c["kind"]][2]
